@@ -38,8 +38,18 @@ def gen_cases(ctx):
         elif k == 2:
             kind, x = datagen.gen(rng, 400000); p = frames.param_vector(rng, True, allow_fmt=False); mode = "mt"
         elif k == 3 and i % 10 == 3:
-            x = rng.choice([datagen.noisecopies, datagen.blockstruct])(rng, rng.choice([131072, 200000, 262144])); p = {100: rng.choice([16, 17, 18, 19])}; mode = "c2"
-            if rng.random() < 0.4: p[130] = 1340
+            sel = (i // 10) % 4
+            if sel == 0:
+                x = rng.choice([datagen.noisecopies, datagen.blockstruct])(rng, rng.choice([131072, 200000, 262144]))
+            elif sel == 1:
+                x = datagen.splitraw(rng, rng.choice([2, 3]))
+            elif sel == 2:
+                x = datagen.splitlong(rng, rng.choice([2, 3]))
+            else:
+                x = datagen.subtail(rng, rng.choice([2, 3, 4]))
+            p = {100: rng.choice([16, 17, 18, 19])}; mode = "c2"
+            if sel == 3: p[130] = rng.choice([400, 1340, 2000])
+            elif sel == 0 and rng.random() < 0.4: p[130] = 1340
         elif k == 4 and i % 10 == 4:
             # formatted dictionary whose offset-code table covers exactly the codes the first block can need; the frame starts with
             # incompressible or constant blocks and later reaches back to the start of the dictionary (offset codes beyond the table)
